@@ -11,6 +11,7 @@ From PowHsm Require Import Proofs.SrcEquivDongle.
 From PowHsm Require Import Gen.SrcM.
 From PowHsm Require Import Proofs.SrcEquivDongleM.
 From PowHsm Require Import Proofs.SrcEquivProtoM.
+From PowHsm Require Import Proofs.SrcEquivSignM.
 Open Scope N_scope.
 
 (* for every request and every device script, sign answers only codes docs/protocol.md lists for sign plus the generic ones (closed check on the generated tables vs the generated doc lists) *)
@@ -262,5 +263,23 @@ Theorem C04_source_reset_advance_handler_is_model :
          srcm_HSM2ProtocolLedger___reset_advance_blockchain init self request w =
          mres rtuple_pv (op_reset_advance kind req w).
 Proof. exact (@srcm_reset_advance_blockchain_ok). Qed.
+
+(* TIE BY TRANSLATION (device monad): the per-step status-word-to-result tables of sign_authorized as written in the source are the model's (which reads them from the generated tables), on every world *)
+Theorem C04_source_sign_authorized_is_model :
+  forall (cm : string -> pv -> list pv -> pr pv) (fuel : nat) (self key_id : pv)
+           (path_bin : bytes) (receipt_hex tx_hex ws_hex : str) (proof_hex : list str)
+           (receipt tx ws : bytes) (proof : list bytes) (input ov : Z) (segwit : bool) 
+           (w : world),
+         oracles_ok cm key_id path_bin ->
+         fromhex receipt_hex = Some receipt ->
+         fromhex tx_hex = Some tx ->
+         fromhex ws_hex = Some ws ->
+         all_some (map fromhex proof_hex) = Some proof ->
+         (S (Datatypes.length (script w)) <= fuel)%nat ->
+         srcm_HSM2Dongle__sign_authorized fuel cm self key_id (VStr receipt_hex)
+           (VList (map VStr proof_hex)) (VStr tx_hex) (VInt input) (mode_obj segwit) 
+           (VStr ws_hex) (VInt ov) w =
+         mres sign_res (sign_authorized path_bin receipt proof tx input (mode_str segwit) ws ov w).
+Proof. exact (@srcm_sign_authorized_ok). Qed.
 
 Example C04_nonvacuous : True. Proof. exact I. Qed. (* concrete runs closed by vm_compute in Proofs/C04.v: blockchainState on Status 0x6B87 / silent device / bad opcode / 0x6F00 answers -905; sign on ERR_SIGN_INVALID_PATH answers -103; ex_error_result_escapes_* exhibit the reconnection-bring-up observation recorded in DESIGN.md *)
